@@ -57,4 +57,43 @@ CHECKS = {
           "implementation (I0 polynomial outside the model; compared with numpy.i0 to 3e-6). 2-D/3-D kernels: correspondence only. No axioms.",
   "technique": "Coq proof over loop-nest IR generated from the source + PrimFloat model/implementation correspondence",
  },
+ "C11": {
+  "text": "Coq theorems over R (real and complex elements in one generic proof): a point satisfying the prox variational inequality is THE strict minimiser; "
+          "soft threshold (scalar/array lamda, any length) is that minimiser; hard threshold = documented map; clip, l2-ball (incl. boundary, zero), "
+          "l-infinity (with bias) are Euclidean projections; the l1-ball sort/cumsum search returns theta >= 0 with sum(|y|-theta)+ = eps, which characterises the "
+          "projection, feasible input returned unchanged; L2Reg closed form and proxh composition; Conj (Moreau), Stack (block separable), UnitaryTransform. "
+          "Model mirrors thresh.py/prox.py line by line and is compared with the implementation on PrimFloat.",
+  "note": "Trusted: Coq kernel+vm_compute(PrimFloat), stdlib real-number axioms (sig_forall_dec, sig_not_dec, functional_extensionality_dep) as printed per theorem; "
+          "numpy eigh/sort as oracles (the eigendecomposition the implementation used is checked against its spec inside Coq and passed in). "
+          "PsdProj: partial (proved from spectral consequences of the eigh spec).",
+  "technique": "Coq proof over R of the prox variational inequalities + PrimFloat model/implementation correspondence",
+  "design_ref": "DESIGN.md §3 C11, notes/C11.md",
+ },
+ "C16": {
+  "text": "Coq theorems: for every batch size b >= 1 the coil-batched evaluation equals the explicit encoding y[c,k] = sqrt(w)[k] F(maps[c] x)[k] (forward), "
+          "and the per-coil adjoint terms summed batch by batch (last batch partial) give the same image (chunked-sum lemma, any n, b); weighted least-squares identity. "
+          "The operator tree returned by the Sense factory is compared exactly with the modelled factory tree for every coil_batch_size; explicit and batched encodings are "
+          "evaluated in Coq against the implementation; recon apps checked for optimality numerically.",
+  "note": "Trusted: Coq kernel+vm_compute; hand model Sense.v/Linop.v; single-coil Fourier matrix measured on the implementation (FFT/NUFFT correctness is C05/C06). "
+          "Recon optimality (SenseRecon normal equations, TV solver agreement) is validated numerically only; tseg/comm/transp_nufft outside the model. No axioms.",
+  "technique": "Coq proof (index algebra / chunked sums over any *-ring) + exact factory-tree correspondence + PrimFloat value correspondence",
+ },
+ "C19": {
+  "text": "Coq theorems over R: SU(2) step identity and its product over ANY waveform; exact unitarity of abrm_hp, blochsim, abrm_ptx; exact product formula and bounds for "
+          "abrm/abrm_nd with the epsilon regulariser (=1 at eps=0); zero RF => b = 0; composition as ordered SU(2) product (abrm_nd full, abrm_hp/blochsim per-sample loop: partial); "
+          "ab2rf peeling recursion inverts the forward hard-pulse polynomials (final angle conversion: partial). One model over an ops record + trig oracle, run on PrimFloat with cos/sin "
+          "tables keyed by the angle the model computes.",
+  "note": "Trusted: Coq kernel+vm_compute(PrimFloat), stdlib real-number axioms; numpy cos/sin/exp values supplied as data; b2a/mag2mp minimum-phase numerics and abrm_ptx zero-RF/composition "
+          "are validated numerically only.",
+  "technique": "Coq proof over R (induction over waveforms) + PrimFloat model/implementation correspondence",
+  "design_ref": "DESIGN.md §3 C19, notes/C19_C20.md",
+ },
+ "C20": {
+  "text": "Coq theorems over R for ALL area, gmax, dgdt, dt > 0 (triangle, trapezoid and boundary in one statement): trap_grad starts/ends at 0, sum*dt = area exactly, 0 <= w <= gmax, "
+          "|dw| <= dgdt*dt; min_trap_grad likewise with the area under its flat top (>= 1 flat sample). The designer model is written once over an ops record, run on PrimFloat against the implementation.",
+  "note": "Trusted: Coq kernel+vm_compute(PrimFloat), stdlib real-number axioms (ceil via `up`); float rounding of ceil at exact integers (tolerance 1e-9). spokes_grad is checked by the numeric oracle only "
+          "(restricted to spoke sets whose blips fit inside the slice lobe; see DESIGN.md findings).",
+  "technique": "Coq proof over R (lra/nra with a real ceiling) + PrimFloat model/implementation correspondence",
+  "design_ref": "DESIGN.md §3 C20, notes/C19_C20.md",
+ },
 }
